@@ -34,6 +34,7 @@ type FuncCfg struct {
 //	kind skip    logging: dropped (arguments must be free of effects)
 //	kind oracle  unknown function: a parameter of every definition using it
 //	kind errtoken fmt.Errorf / errors.New: the format string as an error token
+//	kind sprintf fmt.Sprintf with a literal format of text and %s verbs on strings: concatenation
 //	kind const   a constant: `coq`
 type Intrinsic struct {
 	Kind string   `json:"kind"`
@@ -42,6 +43,7 @@ type Intrinsic struct {
 	Ret  []string `json:"ret"`  // Go types of the results
 	Type string   `json:"type"` // oracle: Coq type
 	On   string   `json:"on"`   // apply to this field of the receiver instead of the receiver
+	Clock int     `json:"clock"` // fn/mut: number of clock readings it takes as trailing arguments
 	Note string   `json:"note"` // meaning (printed in the header of the generated file)
 }
 
